@@ -475,15 +475,21 @@ func run(c Case) ev.Verdict {
 		case "reopen":
 			// the session ends and the same driver opens a new one: the device is back at some
 			// level of its own (r.Target), whatever the driver remembered of the old session
-			if cerr := d.Close(); cerr != nil {
-				return ev.Fail("rule %d reopen: Close: %v", ri, cerr)
-			}
+			_ = d.Close() // (what Close returns is C07's business)
 
 			mode, pw = r.Target, -1
 			fresh := &sim.CLI{NL: "\r\n", Prompt: dev.Prompt, EchoOff: dev.EchoOff, OnLine: dev.OnLine}
 			pipe.Reset(fresh)
 
+			opens := pipe.Opens
+
 			if oerr := d.Open(); oerr != nil {
+				if pipe.Opens == opens {
+					// a driver that refuses a second session outright (it never touched the
+					// transport): nothing here promises that a closed driver can be opened again
+					return ev.Verdict{OK: true, Infeasible: true, Classes: []string{"second-session-refused"}}
+				}
+
 				return ev.Fail("rule %d reopen: Open: %v", ri, oerr)
 			}
 
